@@ -286,12 +286,11 @@ DenseSymmetricMatrixPair construct_neighborhood_preserving_eigenproblem(SparseWe
         }
     }
 
-    rhs += rhs.transpose().eval();
-    rhs /= 2;
-
     // UNRESTRICT_ALLOC;
 
-    return DenseSymmetricMatrixPair(lhs, rhs);
+    // only the upper triangles were accumulated, return the full symmetric matrices
+    return DenseSymmetricMatrixPair(DenseSymmetricMatrix(lhs.selfadjointView<Eigen::Upper>()),
+                                    DenseSymmetricMatrix(rhs.selfadjointView<Eigen::Upper>()));
 }
 
 template <class RandomAccessIterator, class FeatureVectorCallback>
@@ -329,12 +328,11 @@ DenseSymmetricMatrixPair construct_lltsa_eigenproblem(SparseWeightMatrix W, Rand
     }
     lhs.selfadjointView<Eigen::Upper>().rankUpdate(sum, -1. / (end - begin));
 
-    rhs += rhs.transpose().eval();
-    rhs /= 2;
-
     // UNRESTRICT_ALLOC;
 
-    return DenseSymmetricMatrixPair(lhs, rhs);
+    // only the upper triangles were accumulated, return the full symmetric matrices
+    return DenseSymmetricMatrixPair(DenseSymmetricMatrix(lhs.selfadjointView<Eigen::Upper>()),
+                                    DenseSymmetricMatrix(rhs.selfadjointView<Eigen::Upper>()));
 }
 
 } // End of namespace tapkee_internal
